@@ -176,6 +176,7 @@ var c14Binds = []struct{ key, action string }{
 	{"alt-3", "change-list-label(LBL)"},
 	{"alt-4", "clear-screen"},
 	{"alt-5", "offset-up"},
+	{"ctrl-z", "offset-down"},
 	{"alt-6", "offset-middle"},
 	{"alt-7", "show-header"},
 	{"alt-8", "hide-input"},
